@@ -19,8 +19,8 @@ PROPS = {
         "diff_is_failure": True,
         "trivial_outs": set(),
         "rule": "cases = stored witnesses (corpus/C03) + systematic sweeps (every (start, stop) in [-len-2, len+2]^2 for LRANGE/LINDEX/LSET/LTRIM on lists of length <= 3 (thorough: <= 5), LREM for every count around the number of occurrences, SUNION/SINTER/SDIFF over every 1..3-key combination of {missing, set, set, other type}) + random histories of 1..70 commands of the list/set/hash families (plus SET/DEL/EXPIRE/PERSIST/TYPE) on typed colliding key pools, with a malformed share (arity, non-bulk argument, non-integer, wrong type); each history runs against a fresh server process over TCP and ends with a dump (TYPE, LRANGE 0 -1, SMEMBERS, HGETALL, PTTL of every pool key, KEYS *, DBSIZE); one evaluation = one command whose canonical reply (errors by first word, unordered replies sorted) is compared between the server and the extracted Gallina model; SPOP/SRANDMEMBER replies are fed to the model as oracle and checked for admissibility; distinct = distinct (operation, output) pairs",
-        "explanation": "theorems: LRANGE/LTRIM window = Redis rule for all lists/start/stop outside the class lrange-stop-underflow (and exact behaviour inside it), LINDEX/LSET addressing, LREM for all counts, failure atomicity of every command, no empty collection stored + unique members/fields after every history, set algebra over all combinations of existing/missing keys, soundness of SPOP/SRANDMEMBER for every admissible oracle choice, HSET/HDEL counts and lookups; refuted: 7 classes (known_findings.json); tie: differential run of the real server against the extracted model + an independent property oracle on the server's outputs (no empty collection visible, no duplicates, random picks are members, LRANGE stop<-len empty)",
-        "trusted_base": SRV_TB + ["inputs that crash the unchanged server (LREM isize::MIN, SRANDMEMBER i64::MIN / huge negative count, HINCRBY overflow) are excluded from the random stream and replayed only as known-finding witnesses"],
+        "explanation": "theorems (all at full strength since the repairs c5f1b6a 61742d6 2b792ef 6f35e51 eab489c 84546fc): LRANGE/LTRIM window = Redis rule for ALL lists/start/stop, LINDEX/LSET addressing, LREM for all counts incl. isize::MIN, failure atomicity of every command, no empty collection stored + unique members/fields after every history (also mixed with the string family), set algebra over all combinations of existing/missing keys with every key type-checked, soundness of SPOP/SRANDMEMBER for every admissible oracle choice, HSET/HDEL counts and lookups, HINCRBY checked arithmetic, no PANIC outcome for any command/argument; tie: differential run of the real server against the extracted model + an independent property oracle on the server's outputs (no empty collection visible, no duplicates, random picks are members, LRANGE stop<-len empty)",
+        "trusted_base": SRV_TB + ["SRANDMEMBER with a huge negative count (work proportional to |count|, known finding srandmember-neg-work) is excluded from the random stream; counts down to -100 and i64::MIN are generated"],
         "assumptions": ["no key expires during a history (only long TTLs are generated): the engine functions of this family do not check expiry (DESIGN F-02b, property C02)",
                         "commands are executed one at a time by the single command thread"],
     },
@@ -54,17 +54,17 @@ PROPS = {
     },
     "C08": {
         "n": {"quick": 80, "thorough": 2000}, "diff_is_failure": True, "trivial_outs": {"i1", ""},
-        "rule": "catalogue: 38 commands (every write of the string/key family plus reads and failing variants) x 4 initial states of the watched key x {other connection on the watched key, same connection, other connection on other keys only} -> WATCH, command, MULTI, SET probe, EXEC, observe nil vs array and the probe; plus random 3-connection histories with WATCH/UNWATCH/MULTI/EXEC/DISCARD/SELECT and writers; one evaluation = one reply compared with the model",
+        "rule": "catalogue: 99 commands (every write of the string/key family and of the list/set/hash families, incl. the ones that mark without changing anything (LTRIM 0 -1, HDEL of a missing field, HSET of the same value) and the ones that change nothing and must not mark (LREM/SREM of an absent element, SPOP 0, refused HINCRBY/LSET), plus reads and failing variants) x 10 initial states of the watched key (missing, 3 strings, list/set/hash with one and with several elements, some with a deadline) x {other connection on the watched key, same connection, other connection on other keys only} -> WATCH, command, MULTI, SET probe, EXEC, observe nil vs array and the probe; plus random 3-connection histories with WATCH/UNWATCH/MULTI/EXEC/DISCARD/SELECT and writers; one evaluation = one reply compared with the model",
         "explanation": "theorems: tracker soundness/completeness, EXEC abort rule, table obligations over the engine census; tie: exhaustive catalogue + random histories",
         "trusted_base": SRV_TB + ["tools/gen_tables.py: per-function census of mark_modified call sites in engine.rs"],
-        "assumptions": ["list/set/hash/zset/stream writers are added to the catalogue as their families are merged"],
+        "assumptions": ["zset/stream writers are added to the catalogue as their families are merged", "SPOP/SRANDMEMBER appear in the catalogue outside MULTI only (the runner has no oracle for queued commands)"],
     },
     "C02": {
         "n": {"quick": 40, "thorough": 600}, "diff_is_failure": True, "judge": True, "trivial_outs": {"i1", ""}, "run_timeout": 2400,
-        "rule": "sweeper paused through the VERIF hook; (a) random histories of TTL setters (PX 200/400, EX 1, SETEX, PSETEX, EXPIRE, PEXPIRE incl. <= 0), overwrites, PERSIST, RENAME, in-place modifications and reads on 4 keys (two sharing an engine shard), SLEEP 300 steps of the logical clock and full sweeper passes started at known instants, ending with a dump (VERIF INDEX 0 = key/stored deadline/indexed deadline/present, EXISTS/PTTL/GET); (b) for each of 13 racing commands x {TTL still set, TTL already cleared}: SET t PX 200, sleep, sweeper stopped between its scan and its deletions, the racing command, release, dump, another pass, dump; one evaluation = one reply or dump compared with the model; distinct = distinct (command, reply) pairs",
+        "rule": "sweeper paused through the VERIF hook; (a) random histories of TTL setters (PX 200/400, EX 1, SETEX, PSETEX, EXPIRE, PEXPIRE incl. <= 0), overwrites, PERSIST, RENAME, in-place modifications and reads on 4 keys (two sharing an engine shard), SLEEP 300 steps of the logical clock and full sweeper passes started at known instants, ending with a dump (VERIF INDEX 0 = key/stored deadline/indexed deadline/present, EXISTS/PTTL/GET); (b) for each of 13 racing commands x {TTL still set, TTL already cleared}: SET t PX 200, sleep, sweeper stopped between its scan and its deletions, the racing command, release, dump, another pass, dump; (c) list/set/hash keys (C03 family): their commands and EXPIRE/PEXPIRE/PERSIST on cl/cs/ch inside the random histories (LPUSH/SADD/HSET/pops/reads after the deadline with the sweeper paused: no lazy expiry), and the scan/delete window for 23 racing command sequences x {deadline still set, collection drained and re-created so that only a stale index entry remains}; collection keys are dumped by TYPE/PTTL/LRANGE/SMEMBERS/HGETALL; one evaluation = one reply or dump compared with the model; distinct = distinct (command, reply) pairs",
         "explanation": "theorems: never-early over all interleavings of the two sweeper phases with client commands, sweeper only removes, sweep completeness, lazy expiry of GET/EXISTS, TTL bookkeeping, TTL/PTTL replies; tie: stepped/gated real sweeper on a logical clock",
         "trusted_base": SRV_TB + ["the VERIF hook (cfg ferrous_verif): sweeper PAUSE/STEP/GATE/RELEASE/WAITING/PASSES and INDEX dump"],
-        "assumptions": ["list/set/hash/zset/stream keys are covered as their families are merged", "the clock itself and the sweeper's 1 s period are not modelled (theorems hold for any period)"],
+        "assumptions": ["zset/stream keys are covered as their families are merged", "the clock itself and the sweeper's 1 s period are not modelled (theorems hold for any period)"],
     },
     "C05": {
         "n": {"quick": 60, "thorough": 1200}, "diff_is_failure": True, "trivial_outs": {"i1", ""}, "run_timeout": 2400,
